@@ -102,7 +102,8 @@ func (s *coordinatorState) handleRecentOrCatchupResult(res result) {
 
 	// update failed heights
 	for h := range res.failed {
-		nextRetry, _ := s.retryStrategy.nextRetry(retryAttempt{}, time.Now())
+		// keep the attempt count of a height that has already failed before
+		nextRetry, _ := s.retryStrategy.nextRetry(s.failed[h], time.Now())
 		s.failed[h] = nextRetry
 	}
 }
